@@ -32,7 +32,7 @@ from .C03 import run_all
 from .C08 import _res
 
 PID = "C05"
-FORBIDDEN = {"stop_gradient", "custom_jvp", "custom_vjp", "pure_callback", "io_callback", "host_callback", "debug_callback", "item", "tolist"}
+FORBIDDEN = {"stop_gradient", "custom_jvp", "custom_vjp", "defjvp", "defjvps", "defvjp", "pure_callback", "io_callback", "host_callback", "debug_callback", "item", "tolist"}
 PATH_MODULES = ["jaxley.solver_gate", "jaxley.solver_voltage", "jaxley.channels.hh", "jaxley.channels.pospischil", "jaxley.synapses.ionotropic",
                 "jaxley.synapses.tanh_rate", "jaxley.synapses.test", "jaxley.integrate", "jaxley.utils.jax_utils", "jaxley.optimize.transforms"]
 PATH_FUNCS = {"jaxley.modules.base": ["step", "_step_channels", "_step_channels_state", "_channel_currents", "_step_synapse", "_synapse_currents", "_get_external_input",
@@ -64,8 +64,11 @@ def transparency_worker(tier):
                         if isinstance(sub, ast.keyword) and sub.arg in ("unique_indices", "indices_are_sorted") and not (isinstance(sub.value, ast.Constant) and sub.value.value is False):
                             hits.append(f"{node.name}:{getattr(sub.value, 'lineno', '?')}:{sub.arg} (a promise to XLA; must be discharged by the routing obligations)")
             promises = [h for h in hits if "promise" in h]
-            hard = [h for h in hits if "promise" not in h]
-            out["results"].append(_res(f"AD transparency:{modname} uses no stop_gradient/custom_jvp/custom_vjp/callback/.item()/.tolist() on the differentiable path", not hard, str(hard[:5]), backend="ast-scan"))
+            rules = [h for h in hits if h.rsplit(":", 1)[1] in ("custom_jvp", "defjvp", "defjvps")]
+            hard = [h for h in hits if "promise" not in h and h not in rules]
+            out["results"].append(_res(f"AD transparency:{modname} uses no stop_gradient/custom_vjp/callback/.item()/.tolist() on the differentiable path (custom_jvp rules are verified separately)", not hard, str(hard[:5]), backend="ast-scan"))
+            if rules:
+                out.setdefault("custom_jvp_sites", []).extend(f"{modname}:{h}" for h in rules if h.endswith(":custom_jvp"))
             if promises:
                 out.setdefault("promises", []).extend(promises)
     except Exception as e:
@@ -126,6 +129,118 @@ def _routing(tier):
     except Exception as e:
         out["error"] = f"{type(e).__name__}: {e}\n{traceback.format_exc(limit=8)}"
     return out
+
+
+def _unk(name, detail):
+    return {"name": name, "status": "unknown", "backend": "z3", "time_s": 0.0, "model": {}, "detail": detail[:600]}
+
+
+def _kinks(e, acc, seen):
+    """boundaries of the order comparisons that decide an If inside a term: the derivative of the If is that of the branch taken
+    everywhere except on these null sets"""
+    if e.get_id() in seen:
+        return
+    seen.add(e.get_id())
+    if z3.is_app(e):
+        if e.decl().kind() == z3.Z3_OP_ITE:
+            stack = [e.arg(0)]
+            while stack:
+                c = stack.pop()
+                if z3.is_app(c) and c.decl().kind() in (z3.Z3_OP_LE, z3.Z3_OP_LT, z3.Z3_OP_GE, z3.Z3_OP_GT):
+                    acc.append(c.arg(0) != c.arg(1))
+                elif z3.is_app(c):
+                    stack.extend(c.children())
+        for ch in e.children():
+            _kinks(ch, acc, seen)
+
+
+def custom_rule_worker(tier):
+    """6. Every jax.custom_jvp object reachable from the modules on the differentiable path carries a rule that IS the derivative
+    of its primal: the real primal and the real rule run symbolically, the primal term is differentiated (zdiff), and
+    `tangent_out == sum_i d primal / d x_i * tangent_i` and `primal_out == primal` are discharged for all arguments in
+    [-1000, 1000] off the kinks of the primal.  Parameters with a default keep it (zero tangent).  A rule that cannot be analysed
+    (custom_vjp, symbolic zeros, non-scalar code the runtime cannot run) is reported as `unknown` (undecided), not as a violation."""
+    import importlib
+    import inspect as _inspect
+    import sys
+    from .. import discharge as D
+    from ..sym import Ctx, Runtime, Sym, primal_of
+    out = {"results": [], "error": "", "found": []}
+    try:
+        for modname in PATH_MODULES + list(PATH_FUNCS):
+            m = sys.modules.get(modname) or importlib.import_module(modname)
+            if modname == "jaxley.integrate":
+                m = sys.modules["jaxley.integrate"]
+            for nm, obj in list(vars(m).items()):
+                prim = primal_of(obj)
+                if prim is None or (prim.__module__ or "") != m.__name__:
+                    continue
+                label = f"custom derivative rule:{m.__name__}.{nm}"
+                out["found"].append(label)
+                rule = getattr(obj, "jvp", None)
+                if type(obj).__name__ != "custom_jvp" or not callable(rule) or getattr(obj, "symbolic_zeros", False) or getattr(obj, "nondiff_argnums", ()):
+                    out["results"].append(_unk(f"{label}: rule can be analysed", f"{type(obj).__name__} with a rule outside the analysed form"))
+                    continue
+                try:
+                    sig = _inspect.signature(prim)
+                    Ctx.reset()
+                    rt = Runtime()
+                    xs, ts, prim_args, tan_args = [], [], [], []
+                    for pn, par in sig.parameters.items():
+                        if par.default is _inspect.Parameter.empty:
+                            x, t = Sym(z3.Real(f"x_{pn}")), Sym(z3.Real(f"t_{pn}"))
+                            xs.append(x)
+                            ts.append(t)
+                            prim_args.append(x)
+                            tan_args.append(t)
+                        else:
+                            prim_args.append(par.default)
+                            tan_args.append(0.0)
+                    f = rt.reglob(prim)(*prim_args)
+                    res = rt.reglob(rule)(tuple(prim_args), tuple(tan_args))
+                    po, to = res
+                    fe = f.e if isinstance(f, Sym) else z3.RealVal(f)
+                    poe = po.e if isinstance(po, Sym) else z3.RealVal(po)
+                    toe = to.e if isinstance(to, Sym) else z3.RealVal(to)
+                    want = z3.Sum([D.zdiff(fe, x.e) * t.e for x, t in zip(xs, ts)]) if xs else z3.RealVal(0)
+                    hy = [z3.And(x.e >= -1000, x.e <= 1000) for x in xs] + [z3.And(t.e >= -10, t.e <= 10) for t in ts]
+                    kinks = []
+                    _kinks(fe, kinks, set())
+                    hy += kinks
+                    r1 = D.prove(f"{label}: primal output of the rule == primal", hy, poe == fe, timeout_ms=10000, rounds=2, use_cvc5=False)
+                    r2 = D.prove(f"{label}: tangent output == derivative of the primal x tangent (off the {len(kinks)} kinks of the primal)", hy, toe == want, timeout_ms=15000, rounds=3, use_cvc5=False)
+                    out["results"] += [r1.to_json(), r2.to_json()]
+                except Exception as e:
+                    out["results"].append(_unk(f"{label}: rule can be analysed", f"{type(e).__name__}: {str(e)[:200]}"))
+    except Exception as e:
+        out["error"] = f"{type(e).__name__}: {e}\n{traceback.format_exc(limit=8)}"
+    return out
+
+
+def replay_custom_rule(r):
+    """native replay: jax.jvp through the custom rule against jax.jvp through the primal at the counter-model"""
+    try:
+        import importlib
+        import jax
+        jax.config.update("jax_enable_x64", True)
+        qual = r["name"].split(":")[1]
+        modname, nm = qual.rsplit(".", 1)
+        obj = getattr(importlib.import_module(modname), nm)
+        model = r.get("model", {}) or {}
+        xs = [float(eval(str(v).replace("?", ""), {"__builtins__": {}})) if not isinstance(v, (int, float)) else float(v) for k, v in sorted(model.items()) if k.startswith("x_")]
+        cands = [xs] if xs else []
+        cands += [[c] for c in (21.0, 25.0, -25.0, 0.5, 100.0, -100.0)]
+        for c in cands:
+            try:
+                a = jax.jvp(obj, tuple(c), tuple(1.0 for _ in c))[1]
+                b = jax.jvp(obj.fun, tuple(c), tuple(1.0 for _ in c))[1]
+            except Exception:
+                continue
+            if abs(float(a) - float(b)) > 1e-9 * max(1.0, abs(float(b))):
+                return {"reproduced": True, "input": c, "jvp_through_custom_rule": float(a), "jvp_through_primal": float(b)}
+        return {"reproduced": False}
+    except Exception as e:
+        return {"reproduced": False, "reason": f"{type(e).__name__}: {str(e)[:120]}"}
 
 
 def piecewise_worker(arg):
@@ -219,21 +334,28 @@ def main(tier):
     outs = run_units("jxverif.props.C05", "routing_worker", [(tier, None)] + [("quick", c) for c in CANARIES_R])
     outs_t = run_units("jxverif.props.C05", "transparency_worker", [tier])
     outs_p = run_units("jxverif.props.C05", "piecewise_worker", [(tier, None)] + [("quick", c) for c in CANARIES_P])
+    outs_c = run_units("jxverif.props.C05", "custom_rule_worker", [tier])
     for can, oc in zip(CANARIES_P, outs_p[1:]):
         ref = oc[0] == "ok" and not oc[1]["error"] and any(r["status"] != "proved" for r in oc[1]["results"])
         ck.canary(f"{can[0]}: {can[2][:50]!r} -> {can[3][:60]!r}", ref, oc)
-    for o in outs[:1] + outs_t + outs_p[:1]:
+    for o in outs[:1] + outs_t + outs_p[:1] + outs_c:
         if o[0] != "ok" or o[1]["error"]:
             ck.error(str(o[1] if o[0] != "ok" else o[1]["error"])[:900])
             continue
         for r in o[1]["results"]:
             ck.add(r)
             if r["status"] == "refuted":
-                rp = replay_null_select(r) if "taken on a null set" in r["name"] else {"reproduced": False}
+                rp = replay_null_select(r) if "taken on a null set" in r["name"] else (replay_custom_rule(r) if r["name"].startswith("custom derivative rule:") else {"reproduced": False})
                 ck.violation(r["name"], {"solver": r["backend"], "solver_output": r["detail"], "model": r.get("model", {}), "kind": "c05", "replay": rp}, reproduced=rp.get("reproduced", False))
+        if o[1].get("custom_jvp_sites") or o[1].get("found"):
+            ck.extra.setdefault("custom_derivative_rules", []).extend(o[1].get("custom_jvp_sites", []) + o[1].get("found", []))
         if o[1].get("promises"):
             ck.extra["scatter_promises_in_source"] = o[1]["promises"]
         ck.extra.setdefault("code_reached", {}).update({k: v for k, v in o[1].get("reached", {}).items() if k.startswith("jaxley")})
+    n_sites = sum(len(o[1].get("custom_jvp_sites", [])) for o in outs_t if o[0] == "ok")
+    n_found = sum(len(o[1].get("found", [])) for o in outs_c if o[0] == "ok")
+    if n_sites > n_found:
+        ck.add(_unk("custom derivative rule: every custom_jvp site seen by the scan is a module-level object whose rule was verified", f"{n_sites} sites in the source, {n_found} rules analysed"))
     for can, oc in zip(CANARIES_R, outs[1:]):
         ref = oc[0] == "ok" and not oc[1]["error"] and any(r["status"] != "proved" for r in oc[1]["results"])
         ck.canary(f"{can[0]}: {can[2][:50]!r} -> {can[3][:60]!r}", ref, oc)
